@@ -84,6 +84,10 @@ func BFSHarness(mode Mode) mc.Harness {
 					add(job{b, 5, 2})
 					add(job{b, 6, 1})
 				}
+				// a node deeper than the limit of the shrunken tree needs 7 keys at
+				// the default balance (limit(7)=4, limit(6)=3)
+				add(job{250, 7, 1})
+				add(job{500, 7, 1})
 			default:
 				for b := 0; b <= 1000; b++ {
 					add(job{b, 4, 2})
@@ -128,7 +132,7 @@ func BFSHarness(mode Mode) mc.Harness {
 			})
 			r.Extra("bfs_states_per_selected_search", perBeta)
 			r.Bound("betas", mc.Pick(r,
-				"4 tagged keys: one representative of every beta class (depth-limit/threshold signature, see BetaClasses) plus multiples of 50; 5 tagged and 6 untagged keys at 0,250,500,750,999,1000",
+				"4 tagged keys: one representative of every beta class (depth-limit/threshold signature, see BetaClasses) plus multiples of 50; 5 tagged and 6 untagged keys at 0,250,500,750,999,1000; 7 untagged keys at 250 and 500",
 				"4 tagged keys: every beta 0..1000; 5 tagged keys: every class representative; 6 tagged and 8 untagged keys: multiples of 50 and 999"))
 			r.Bound("searches", len(jobs))
 			r.Count("two_child_removals", total.TwoChildRemovals)
